@@ -18,7 +18,7 @@ import multiprocessing as mp
 
 from . import world as W
 from .core import Run, Violation, Foreign, HarnessError, HANDLERS  # noqa: F401
-from . import ops_struct, ops_meta, ops_data, ops_tree, ops_refuse, ops_fault  # noqa: F401  (registers ops)
+from . import ops_struct, ops_meta, ops_data, ops_tree, ops_refuse, ops_fault, ops_frame, ops_copy  # noqa: F401  (registers ops)
 
 VERIF = os.path.dirname(os.path.dirname(os.path.abspath(__file__)))
 OUT = os.path.join(VERIF, "out")
